@@ -275,6 +275,13 @@ def run(prop, tier, seed, replay=None):
     if prop in ("C04", "C16", "C17"):
         upath = S.universe_path("sz")
         jobs.append(("sz", upath, json.load(open(upath)), geometry_histories(rnd, tier)))
+    if prop == "C18":
+        # one author with 520 events: vanish removes every one of them (no page size or result ceiling in between)
+        mp = S.universe_path("many")
+        mu = json.load(open(mp))
+        allst = [{"k": "store", "a": i} for i in range(1, mu["n"] + 1)]
+        jobs.append(("many", mp, mu, [allst + [{"k": "vanish", "a": 1}, {"k": "reopen", "a": 0}, {"k": "store", "a": 1}],
+                                      allst[::-1] + [{"k": "remove", "a": 7}, {"k": "vanish", "a": 2}, {"k": "vanish", "a": 1}]]))
     # wall-clock dimension: expiration tags that run out while the history is running
     jobs.append(("exp", None, None, expiry_histories(rnd, tier)))      # the universe is built when the job starts
     for j in range(n_ru):
@@ -282,7 +289,7 @@ def run(prop, tier, seed, replay=None):
         uname = "r%d" % useed
         upath = S.universe_path(uname)
         u = json.load(open(upath))
-        hs = [S.random_history(u, rnd, n_rops) for _ in range(n_rh)]
+        hs = [S.random_history(u, rnd, n_rops, p_alt=0.05 if prop == "C04" else 0.0) for _ in range(n_rh)]
         if conf["extra"]:
             for h in hs[::2]:
                 for _ in range(3):
@@ -308,7 +315,7 @@ def run(prop, tier, seed, replay=None):
             upath = S.universe_path(uname)
             u = json.load(open(upath))
         fpath = ""
-        if conf["probes"]:
+        if conf["probes"] and uname != "many":
             fpath = os.path.join(wd, "filters_%s.json" % uname)
             json.dump(F.probe_filters(u), open(fpath, "w"))
         t0 = time.time()
